@@ -22,7 +22,8 @@ RULE = ("(a) fluid reference: networks containing PS nodes (sharing capacity 1-3
         "over the observed sharing sets; at departure it must equal the logged requirement and nobody stays beyond it.  (b) metamorphic: an unlimited PS node "
         "and a one-server FIFO ciw.Node fed with the same arrivals and per-customer requirements empty at the same instants.  "
         "Non-trivial (a): >= 3 customers overlapping in service at a PS node; distinct by digest.")
-ASSUMPTIONS = ["tie-free inputs (continuous distributions); tolerance 1e-9 relative on predicted dates"]
+ASSUMPTIONS = ["tie-free inputs (continuous distributions); tolerance 1e-9 relative on predicted dates",
+               "the threshold R of a capacitated PS node may be fractional (rate min(1, R/k)): the code accepts it although the documentation speaks of R processors"]
 TECHNIQUE = 'property-based testing against reference models: exact-rational fluid PS model (tie-free), tie-robust integration of received work (also at sharing capacities of 250-300 and at clock values of 2^20-2^30), and metamorphic PS-vs-FIFO busy periods'
 WALL = {"quick": 150, "thorough": 540}
 
@@ -58,7 +59,7 @@ class PSMonitor(O.Monitor):
                     Q.report(self.P, "C19.waiting-customers-are-the-latest-arrivals", etype,
                              {"node": nd.id_number, "sharing": sorted((O._num(i.arrival_date), i.id_number) for i in sh),
                               "waiting": sorted((O._num(i.arrival_date), i.id_number) for i in wt)[:5]})
-            if len(sh) > nd.ps_threshold > 1:
+            if len(sh) > self.spec["nodes"][nd.id_number - 1].get("ps_threshold", 1) > 1:
                 self.activity["threshold_active"] += 1
 
     def finish(self, Q, res):
@@ -85,7 +86,7 @@ class PSMonitor(O.Monitor):
                     st_ = ind.service_start_date if getattr(ind, "with_server", False) else None
                     visits.append((ind.arrival_date, ind.id_number, k, st_, None))
             visits.sort(key=lambda x: (x[0], x[1]))
-            pred = fluid(visits, samples, nid, nd.ps_capacity, nd.ps_threshold, Fraction(tend))
+            pred = fluid(visits, samples, nid, nd.ps_capacity, Fraction(self.spec["nodes"][nid - 1].get("ps_threshold", 1)), Fraction(tend))
             for v_, p in zip(visits, pred):
                 self.activity["ps_visits_checked"] += 1
                 a, cid, k, s_obs, e_obs = v_
@@ -143,7 +144,7 @@ class PSWork(O.Monitor):
         self.prev_event_t = t
         for nd in self.nodes:
             nid = nd.id_number
-            R = nd.ps_threshold
+            R = self.spec["nodes"][nid - 1].get("ps_threshold", 1)      # from the configuration, not from the node object
             mine = [w for w in self.work.values() if w[0] == nid]
             kshare = len(mine)
             rate = 1.0 if kshare <= R else R / float(kshare)
@@ -316,7 +317,7 @@ def huge_ps_case(draw):
     return {"classes": [{"name": "C0", "priority": 0, "arrival": [["det", draw(st.sampled_from([0.5, 1.0]))]], "batch": [["det", batch]],
                          "service": [draw(st.sampled_from([["det", 20.0], ["det", 35.0], ["uni", 15.0, 40.0]]))],
                          "routing": {"kind": "matrix", "rows": [[0.0]]}}],
-            "nodes": [{"cap": "inf", "ps": True, "ps_threshold": draw(st.integers(1, 3)), "servers": {"kind": "int", "c": c}}],
+            "nodes": [{"cap": "inf", "ps": True, "ps_threshold": draw(st.sampled_from([1, 2, 3, 2.5])), "servers": {"kind": "int", "c": c}}],
             "plan": {"kind": "max_time", "T": [draw(st.sampled_from([3.25, 4.25, 5.25]))]}, "seed": draw(st.integers(0, 99)), "event_budget": 400}
 
 
@@ -332,7 +333,7 @@ def late_clock_case(draw):
         classes.append({"name": "C%d" % ci, "priority": 0, "arrival": [["seq", arr]],
                         "service": [draw(st.sampled_from([["seq", [draw(st.sampled_from([0.5, 1.0, 1.0004, 1.5, 2.0, 3.0])) for _ in range(4)]], ["uni", 0.5, 3.0], ["exp", 0.8]]))],
                         "batch": [["det", draw(st.sampled_from([1, 1, 2]))]], "routing": {"kind": "matrix", "rows": [[draw(st.sampled_from([0.0, 0.0, 0.25]))]]}})
-    node = {"cap": "inf", "ps": True, "ps_threshold": draw(st.integers(1, 2)), "servers": draw(st.sampled_from([{"kind": "inf"}, {"kind": "int", "c": 2}, {"kind": "int", "c": 3}]))}
+    node = {"cap": "inf", "ps": True, "ps_threshold": draw(st.sampled_from([1, 2, 1.5])), "servers": draw(st.sampled_from([{"kind": "inf"}, {"kind": "int", "c": 2}, {"kind": "int", "c": 3}]))}
     return {"classes": classes, "nodes": [node], "plan": {"kind": "max_time", "T": [B0 + 40.0]}, "seed": draw(st.integers(0, 999)), "event_budget": 600, "late_clock": B0}
 
 
